@@ -115,7 +115,7 @@ def src_hash():
 def build_unit(args):
     text, shash, extra = args
     key = hashlib.sha1((shash + text + " ".join(extra)).encode()).hexdigest()[:16]
-    d = os.path.join(BUILD, "units", key)
+    d = os.path.join(BUILD, "units", shash, key)
     exe = os.path.join(d, "unit")
     if os.path.exists(exe):
         return exe, None, True
@@ -127,7 +127,10 @@ def build_unit(args):
     open(src, "w").write(text)
     tmp = exe + ".tmp" + uniq
     r = sh(["g++"] + CXXFLAGS + extra + ["-I" + os.path.join(REPO, "src"), "-I" + os.path.join(ROOT, "harness"), src, "-o", tmp], timeout=600)
-    os.remove(src)
+    try:
+        os.remove(src)
+    except OSError:
+        pass
     if r.returncode != 0:
         return None, r.stdout, False
     os.replace(tmp, exe)
@@ -135,14 +138,23 @@ def build_unit(args):
 
 
 def prune_cache(shash_keep):
-    """drop unit binaries built for other source trees (disk is limited)"""
+    """drop unit binaries built for other source trees (disk is limited).  Units live under
+    build/units/<hash of headers + harness + flags>/; directories of other hashes are removed
+    once they have not been used for three hours, so that two runs on different trees (a
+    seeded change in a scratch worktree next to the unchanged tree) do not evict each other"""
     ud = os.path.join(BUILD, "units")
-    stamp = os.path.join(ud, "SRCHASH")
-    old = open(stamp).read().strip() if os.path.exists(stamp) else None
-    if old != shash_keep and os.path.isdir(ud):
-        subprocess.run(["rm", "-rf", ud])
-    os.makedirs(ud, exist_ok=True)
-    open(stamp, "w").write(shash_keep)
+    os.makedirs(os.path.join(ud, shash_keep), exist_ok=True)
+    os.utime(os.path.join(ud, shash_keep), None)
+    now = time.time()
+    for name in os.listdir(ud):
+        p = os.path.join(ud, name)
+        if name == shash_keep:
+            continue
+        try:
+            if not os.path.isdir(p) or now - os.path.getmtime(p) > 3 * 3600:
+                subprocess.run(["rm", "-rf", p])
+        except OSError:
+            pass
 
 
 # ---------------------------------------------------------------- running
